@@ -421,3 +421,6 @@ CHECKS['C16']["level_text"] = "Proved (Qed, closed) at object level for the No-C
 CHECKS['C12']["level_text"] = "Proved (Qed, closed) for EVERY operation history of the sender model whose accepted adds have pairwise distinct TOIs and max_transfer_count >= 1 or a carousel (the domain of the property; both halves shown necessary by refuting Examples): P_C12_wire holds of the trace - no packet of an object never added, a non-carousel object puts at most max_transfer_count x max(1, npk) packets on the wire, after a successful remove at most the remainder of the current transfer (or one packet, carrying the close flag, when the object may be stopped at once) (C12_lifecycle_full); and the transfer counter reported for every listed object is within one of the whole transfers seen on the wire and below max for non-carousel objects, after every operation (C12_counter_full). Building blocks: a transfer is exactly its packets with the flag last iff last transfer; forced read once; counters; expiry decision. Not formalised: the 'finitely many packets at a fixed instant' sentence (checked on every run: the q operation reads until nothing, bounded by a watchdog). Correspondence: the Gallina model agrees with the implementation op by op on every generated scenario."
 CHECKS['C02']["level_text"] = 'Proved (Qed, closed) at object level (Proofs/C02Full.v, C02RS.v): a fresh object receiver with the FDT entry attached, fed ANY list of genuine packets in any order with any duplication, ends Completed with the writer having received open, writes concatenating to the content, one complete - for No-Code when every source symbol occurs (C02_nocode_recoverable_delivers), for Reed-Solomon GF(2^8) (FEC 5 and 129) when every block has k distinct symbols, under the explicit oracle hypothesis rs_oracle_mds (the decoder returns the block given >= k genuine shards; part of the trusted base, shown necessary by rs_wrong_decoder_corrupts), and for RaptorQ/Raptor when all source symbols arrive (oracle hypotheses fq_oracle_sound/complete). Premises each shown necessary by an Example: object within max_size_allocated (k x E accounting for FEC 129), at most 4097 blocks ahead, a close-object flag only once the reception is recoverable, non-empty object, writer accepts. Content encodings and the session level (FDT transport, several objects) are evaluated on every run (P_C02_object over every subset/duplication of real sessions), not proved - partial. For an empty object the premise is read as: its packet arrives.'
 CHECKS['C03']["level_text"] = 'Proved for every receiver history: no writer is both completed and failed (C03_never_complete_and_failed_history, from the C09 invariant). Proved at object level (C03_nocode_complete_implies_exact; Reed-Solomon and RaptorQ/Raptor under the oracle soundness hypotheses rs_oracle_sound / fq_oracle_sound): for ANY list of genuine packets (any order, subset, multiplicity, close flags), whatever write() and the MD5 check answer, the bytes written are always a prefix of the content and a writer is completed only if it was written exactly the content. Content encodings and altered payloads (guarded by MD5, named assumption) are evaluated on every run over permutations, sub-multisets, duplications and payload alterations - partial.'
+CHECKS['C01']["level_text"] = "Proved (Qed, closed) for the No-Code scheme. Object level (C01_clean_channel_nocode, Proofs/C01Full.v, C01Esi.v): all packets the sender model emits for one transfer, through the wire bridge, into a fresh object receiver with the FDT entry attached yield Completed and a writer that received open, writes concatenating to the content, one complete. SESSION level (C01_session_clean_channel_nocode, Proofs/C01Session.v): the FDT instance the sender model prints (C10's XML printer) in one packet, read by the receiver through the reference XML parser and flute's extraction (fdt_oracle), followed by the wire packets of one transfer, pushed through recv_run from the initial state, ends with the object's writer having received open, writes = content, complete, AND the metadata handed to the writer builder equal to what the sender was given in all ten ObjectMetadata fields (location, lengths, type, cache directive, groups, MD5, OTI, cenc, ETag) - premises: accepted non-empty No-Code object, one-packet FDT, cooperative writer, FDT not expired on arrival (shown necessary). The proofs exposed D39 (ESI wrap above 65536 symbols; fixed). Other schemes, content encodings, several objects, multi-packet FDTs and receive-once are evaluated on every run by P_C01_object over real sender->receiver sessions tied to both models op by op - partial in that respect. Findings D20, D35 recorded. The filesystem-writer clause is covered by C05."
+CHECKS['C16']["level_text"] = 'Proved (Qed, closed) for the No-Code scheme. Object level (Proofs/C01Full.v): any suffix of one carousel transfer followed by one whole further transfer, more generally any list of genuine packets without close flag containing one whole transfer, is delivered complete and byte-exact. SESSION level (C16_session_late_join_nocode, C16_session_late_join_general_nocode, Proofs/C01Session.v): the receiver first sees any suffix of a transfer (packets with in-band FTI), then the one-packet FDT instance, then one whole transfer: delivered with the given metadata. Other schemes, multi-packet FDTs (mid-FDT joins), several objects and content encodings are evaluated on every run for every join offset of real carousel sessions (P_C16_object), incl. empty objects (D37 fixed) - partial in that respect.'
+CHECKS['C04']["level_text"] = "Proved (Qed, closed; 34 theorems): on a fully checked parser model (Model/AlcFixed.v: every index, slice, subtraction, division, shift can yield Panic) parse_alc_pkt, sender-time and payload-id parsing return Ok or Err for EVERY byte string; the repaired functions equal the C06 model except that its panics are errors; history theorem C04_recv_step_total / C04_recv_bytes_total: the panic flag stays false for every history of packets (also as raw bytes through push_data), clean-ups, drop and any oracle answers (one range premise: FDT Transfer-Length <= 2^64 - 2^16); the FEC oracle is consulted only inside its precondition; USABLE AFTERWARDS (Proofs/C04Usable.v): every rejected input - unparsable or short datagrams, foreign TSI, TOI-0 packets without EXT_FDT, packets of any object answered Err - leaves the receiver state unchanged (up to a flag nothing reads), and a valid No-Code session pushed after, or interleaved with, any number of them is delivered exactly as alone (composition with C02's receiver-level theorem); the proof found D41 (a damaged FDT packet blocked its instance id until cleanup; fixed). Accepted garbage that spoofs the session's own FDT is refuted (C04_usable_afterwards_full_refuted) and outside the property. Measured, not proved: heap (RLIMIT_AS), time (watchdog), the follow-up session through the real receiver on every fuzz case. MultiReceiver is exercised, not modelled here."
